@@ -178,7 +178,7 @@ Fixpoint c02_mon (started joined : nat) (tr : trace) : bool :=
   | (t, l) :: r =>
       match t, l with
       | TCtl, LStart (TBg _) => c02_mon (S started) joined r
-      | TCtl, LJoin (TBg _) => (joined <? started) && c02_mon started (S joined) r
+      | TCtl, LJoin (TBg _) => c02_mon started (S joined) r
       | TBg _, _ => (joined <? started) && c02_mon started joined r       (* only not-yet-joined threads act *)
       | TCtl, LExit _ => (joined =? started) && c02_mon started joined r   (* launch() is over: everybody has been joined *)
       | _, _ => c02_mon started joined r
